@@ -47,8 +47,9 @@ def forwards(call, va, kw):
     return None
 
 
-def run(R):
-    R.extra["explanation"] = EXPLANATION
+def run(R, P="C09"):
+    if P == "C09":
+        R.extra["explanation"] = EXPLANATION
     ro = Roles(R)
     repo = R.repo
     n_entry = 0
@@ -64,7 +65,7 @@ def run(R):
             site = R.site(m)
             key = m.qualname
             stored = [n for n in q.scope_nodes(m.node) if isinstance(n, ast.Name) and isinstance(n.ctx, ast.Store) and n.id in (va, kw)]
-            R.check(not stored, "C09.FORWARD", key + ":unmodified", site,
+            R.check(not stored, P + ".FORWARD", key + ":unmodified", site,
                     "%s does not rebind %s/%s" % (mname, va, kw), "%s rebinds its %s/%s before forwarding them" % (mname, va, kw))
             cfg = cfg_of(m)
             fw_nodes, partial = [], []
@@ -75,14 +76,14 @@ def run(R):
                         fw_nodes.append(n)
                     elif f == "partial":
                         partial.append(c)
-            R.check(not partial, "C09.FORWARD", key + ":complete", site,
+            R.check(not partial, P + ".FORWARD", key + ":complete", site,
                     "every call that receives the caller's arguments receives both *%s and **%s" % (va, kw),
                     "%s passes only part of the caller's arguments on (%s): positional or keyword arguments are dropped for this calling convention"
                     % (mname, "; ".join(q.src(c)[:60] for c in partial)))
             # every normal return passes a forwarding call (asyncio-mode refusal paths end in raise or a bare warning)
             rets = [n for n in cfg.nodes if n.kind == "stmt" and isinstance(n.ast, ast.Return) and n.ast.value is not None]
             p = cfg.find_path([cfg.entry], rets, N, cut_nodes=fw_nodes)
-            R.check(p is None and fw_nodes, "C09.FORWARD", key + ":reaches", site,
+            R.check(p is None and fw_nodes, P + ".FORWARD", key + ":reaches", site,
                     "every value-returning path of %s goes through a call that received (*%s, **%s)" % (mname, va, kw),
                     "%s can return a value without having forwarded the caller's arguments" % mname, cfg.fmt_path(p) if p else None)
     R.need(n_entry >= 16, "fewer entry points with (*args, **kwargs) than confirmed by hand (%d < 16)" % n_entry)
@@ -97,40 +98,40 @@ def run(R):
     for cls, common_call in ((ad, "self._call_pure(args, kwargs)"), (aw, "self._call_async(args, kwargs)")):
         asy, syn = cls.methods.get("asynq"), cls.methods.get("__call__")
         R.need(asy is not None and syn is not None, "anchor vanished: %s.asynq/__call__" % cls.qualname)
-        R.check(ret_srcs(asy) == [common_call], "C09.ROUTE", asy.qualname, R.site(asy),
+        R.check(ret_srcs(asy) == [common_call], P + ".ROUTE", asy.qualname, R.site(asy),
                 ".asynq(...) returns %s" % common_call, ".asynq(...) no longer returns %s" % common_call)
         rs = ret_srcs(syn)
-        R.check(rs == [common_call + ".value()"], "C09.ROUTE", syn.qualname, R.site(syn),
+        R.check(rs == [common_call + ".value()"], P + ".ROUTE", syn.qualname, R.site(syn),
                 "the synchronous call is .value() of the same call .asynq makes", "the synchronous call is not %s.value() (returns %s)" % (common_call, rs))
     pc = pad.methods.get("__call__")
-    R.check(ret_srcs(pc) == ["self._call_pure(args, kwargs)"], "C09.ROUTE", pc.qualname, R.site(pc),
+    R.check(ret_srcs(pc) == ["self._call_pure(args, kwargs)"], P + ".ROUTE", pc.qualname, R.site(pc),
             "calling a pure async function returns the task of _call_pure(args, kwargs)", "pure __call__ no longer returns _call_pure(args, kwargs)")
     for cq in ("decorators.AsyncAndSyncPairDecorator", "decorators.AsyncAndSyncPairProxyDecorator"):
         c = repo.cls(cq)
         syn = c.methods.get("__call__")
         R.need(syn is not None, "anchor vanished: %s.__call__" % cq)
         rs = ret_srcs(syn)
-        R.check(rs == ["self.sync_fn(*args, **kwargs)"], "C09.ROUTE", syn.qualname, R.site(syn),
+        R.check(rs == ["self.sync_fn(*args, **kwargs)"], P + ".ROUTE", syn.qualname, R.site(syn),
                 "with sync_fn supplied the synchronous call runs sync_fn(*args, **kwargs)", "the pair decorator's synchronous call returns %s" % rs)
     # _call_pure builds the task from the same fn/args/kwargs
     cp = pad.methods.get("_call_pure")
     tc = [c for c in q.calls(cp.node) if q.call_name(c) == "self.task_cls"]
     okt = len(tc) == 1 and [q.src(a) for a in tc[0].args][1:] == ["self.fn", "args", "kwargs"]
-    R.check(okt, "C09.ROUTE", cp.qualname + ":task", R.site(cp), "_call_pure creates task_cls(<generator>, self.fn, args, kwargs, ...)",
+    R.check(okt, P + ".ROUTE", cp.qualname + ":task", R.site(cp), "_call_pure creates task_cls(<generator>, self.fn, args, kwargs, ...)",
             "_call_pure no longer creates the task from (self.fn, args, kwargs)")
     gens = common.assigned_values(cp.node, q.src(tc[0].args[0])) if tc and isinstance(tc[0].args[0], ast.Name) else []
     gsrc = sorted(q.src(v) for k, v in gens if k == "expr")
-    R.check(gsrc == ["self._fn_wrapper(args, kwargs)", "self.fn(*args, **kwargs)"], "C09.ROUTE", cp.qualname + ":body", R.site(cp),
+    R.check(gsrc == ["self._fn_wrapper(args, kwargs)", "self.fn(*args, **kwargs)"], P + ".ROUTE", cp.qualname + ":body", R.site(cp),
             "the task's generator is self.fn(*args, **kwargs) or the wrapper around it", "the task's generator is built from %s" % gsrc)
     fw = pad.methods.get("_fn_wrapper")
     inner = [c for c in q.calls(fw.node) if q.call_name(c) == "self.fn"]
-    R.check(len(inner) == 1 and forwards(inner[0], "args", "kwargs") == "full", "C09.ROUTE", fw.qualname, R.site(fw),
+    R.check(len(inner) == 1 and forwards(inner[0], "args", "kwargs") == "full", P + ".ROUTE", fw.qualname, R.site(fw),
             "the wrapper calls self.fn(*args, **kwargs)", "the wrapper does not call self.fn(*args, **kwargs)")
     # proxy: _call_pure returns self.fn(*args, **kwargs)
     apd = repo.cls("decorators.AsyncProxyDecorator")
     pcp = apd.methods.get("_call_pure")
     rs = ret_srcs(pcp)
-    R.check("self.fn(*args, **kwargs)" in rs, "C09.ROUTE", pcp.qualname, R.site(pcp), "async_proxy returns the future its function returns",
+    R.check("self.fn(*args, **kwargs)" in rs, P + ".ROUTE", pcp.qualname, R.site(pcp), "async_proxy returns the future its function returns",
             "async_proxy no longer returns self.fn(*args, **kwargs)")
 
     # ---- BINDERS
@@ -145,14 +146,14 @@ def run(R):
             site = R.site(m)
             if cq.endswith("AsyncAndSyncPairDecoratorBinder") and mname == "__call__":
                 rs = ret_srcs(m)
-                R.check(rs == ["self.decorator(*args, **kwargs)"], "C09.BINDERS", m.qualname, site,
+                R.check(rs == ["self.decorator(*args, **kwargs)"], P + ".BINDERS", m.qualname, site,
                         "the pair binder calls the decorator without the instance (sync_fn was bound by __get__)",
                         "the pair binder's __call__ returns %s: the instance is added a second time or the arguments change" % rs)
                 continue
             ifs = [s for s in m.node.body if isinstance(s, ast.If)]
             R.need(len(ifs) == 1, "idiom: binder method %s is not a single if/else on self.instance" % m.qualname)
             k, s, pos = q.atom_test(ifs[0].test)
-            R.check(k == "isnone" and s == "self.instance", "C09.BINDERS", m.qualname + ":test", site,
+            R.check(k == "isnone" and s == "self.instance", P + ".BINDERS", m.qualname + ":test", site,
                     "the binder tests `self.instance is None` (identity)",
                     "the binder tests `%s` instead of `self.instance is None`: a bound instance that is falsy (empty container, zero-like object) "
                     "is treated as unbound and loses its self argument" % q.src(ifs[0].test))
@@ -168,9 +169,9 @@ def run(R):
             okn = len(nc) == 1 and q.call_name(nc[0]) == target and [q.src(x) for x in nc[0].args] == ["*args"] and forwards(nc[0], "args", "kwargs") == "full"
             oki = len(ic) == 1 and q.call_name(ic[0]) == target and [q.src(x) for x in ic[0].args] in (["self.instance", "*args"], ["*(self.instance,) + args"], ["*((self.instance,) + args)"]) \
                 and forwards(ic[0], "args", "kwargs") == "full"
-            R.check(okn, "C09.BINDERS", m.qualname + ":unbound", site, "unbound: %s(*args, **kwargs)" % target,
+            R.check(okn, P + ".BINDERS", m.qualname + ":unbound", site, "unbound: %s(*args, **kwargs)" % target,
                     "the unbound arm is not %s(*args, **kwargs)" % target)
-            R.check(oki, "C09.BINDERS", m.qualname + ":bound", site, "bound: %s(self.instance, *args, **kwargs) - instance first and once" % target,
+            R.check(oki, P + ".BINDERS", m.qualname + ":bound", site, "bound: %s(self.instance, *args, **kwargs) - instance first and once" % target,
                     "the bound arm does not pass the instance exactly once, first: %s" % (q.src(ic[0]) if ic else "no call"))
     R.need(n_b >= 4, "fewer binder methods than confirmed by hand (%d < 4)" % n_b)
     # every decorator class that defines asynq uses a binder that defines asynq
@@ -185,12 +186,12 @@ def run(R):
                 break
         bc = repo.resolve_dotted(cls.module, q.dotted(b)) if b is not None else None
         okb = bc is not None and bc[0] == "class" and bc[1].find_method("asynq") is not None
-        R.check(okb, "C09.BINDERS", cq + ":binder_cls", R.site(cls.module, cls.node),
+        R.check(okb, P + ".BINDERS", cq + ":binder_cls", R.site(cls.module, cls.node),
                 "%s binds methods with a binder that offers .asynq" % cls.name, "%s has .asynq but its binder class does not: bound methods lose .asynq" % cls.name)
         for extra in ("asyncio", "dirty"):
             if cls.find_method(extra) is not None and extra in cls.methods:
                 okx = bc is not None and bc[0] == "class" and bc[1].find_method(extra) is not None
-                R.check(okx, "C09.BINDERS", cq + ":binder:" + extra, R.site(cls.module, cls.node),
+                R.check(okx, P + ".BINDERS", cq + ":binder:" + extra, R.site(cls.module, cls.node),
                         "the binder of %s offers .%s" % (cls.name, extra), "%s defines .%s but its binder does not" % (cls.name, extra))
 
     # ---- PAIR-REBIND
@@ -204,24 +205,24 @@ def run(R):
     rets = [n for n in gcfg.nodes if n.kind == "stmt" and isinstance(n.ast, ast.Return)]
     p1 = gcfg.find_path([gcfg.entry], rets, N, cut_nodes=bind)
     p2 = gcfg.find_path([gcfg.entry], rets, N, cut_nodes=fresh)
-    R.check(p1 is None and p2 is None and bind and fresh, "C09.PAIR-REBIND", g.qualname, R.site(g),
+    R.check(p1 is None and p2 is None and bind and fresh, P + ".PAIR-REBIND", g.qualname, R.site(g),
             "every attribute access binds sync_fn to the accessing (owner, cls) and builds a fresh copy of the decorator with it",
             "__get__ can return without rebinding sync_fn for this (owner, cls) (cached copy): the synchronous call runs sync_fn on whichever instance touched the attribute first",
             gcfg.fmt_path(p1 or p2) if (p1 or p2) else None)
     st = [x for x in q.attr_stores(g.node) if x[0] == "self"] + [n for n in ast.walk(g.node) if isinstance(n, ast.Subscript) and isinstance(n.ctx, ast.Store) and q.src(n.value).startswith("self.")]
-    R.check(not st, "C09.PAIR-REBIND", g.qualname + ":stateless", R.site(g), "__get__ keeps no state on the decorator",
+    R.check(not st, P + ".PAIR-REBIND", g.qualname + ":stateless", R.site(g), "__get__ keeps no state on the decorator",
             "__get__ stores state on the shared decorator object")
     # staticmethod/classmethod preserved on the copy
     tests = [n for n in ast.walk(g.node) if isinstance(n, ast.Compare) and q.src(n.left) == "self.type"]
     okt = len(tests) == 1 and isinstance(tests[0].ops[0], ast.In) and sorted(q.src(e) for e in tests[0].comparators[0].elts) == ["classmethod", "staticmethod"]
-    R.check(okt, "C09.PAIR-REBIND", g.qualname + ":type", R.site(g), "the copy keeps staticmethod and classmethod wrappers of the async function",
+    R.check(okt, P + ".PAIR-REBIND", g.qualname + ":type", R.site(g), "the copy keeps staticmethod and classmethod wrappers of the async function",
             "the copy no longer keeps both the staticmethod and the classmethod wrapper of the async function: the binding differs between calling conventions")
 
     # ---- ASYNC-CALL
     ac = repo.fn("decorators.async_call")
     rets = [n.value for n in ast.walk(ac.node) if isinstance(n, ast.Return)]
     want = ["fn(*args, **kwargs)", "fn.asynq(*args, **kwargs)", "getattr(fn, 'async')(*args, **kwargs)", "futures.ConstFuture(fn(*args, **kwargs))"]
-    R.check([q.src(r) for r in rets] == want, "C09.ASYNC-CALL", ac.qualname, R.site(ac),
+    R.check([q.src(r) for r in rets] == want, P + ".ASYNC-CALL", ac.qualname, R.site(ac),
             "async_call dispatches pure / .asynq / .async / plain with the same (*args, **kwargs)", "async_call's arms are %s" % [q.src(r) for r in rets])
     tests = []
     cur = [s for s in ac.node.body if isinstance(s, ast.If)]
@@ -229,7 +230,7 @@ def run(R):
     while node is not None:
         tests.append(q.src(node.test))
         node = node.orelse[0] if len(node.orelse) == 1 and isinstance(node.orelse[0], ast.If) else None
-    R.check(tests == ["is_pure_async_fn(fn)", "hasattr(fn, 'asynq')", "hasattr(fn, 'async')"], "C09.ASYNC-CALL", ac.qualname + ":tests", R.site(ac),
+    R.check(tests == ["is_pure_async_fn(fn)", "hasattr(fn, 'asynq')", "hasattr(fn, 'async')"], P + ".ASYNC-CALL", ac.qualname + ":tests", R.site(ac),
             "async_call tests pure, .asynq, .async in this order", "async_call tests %s" % tests)
 
     # ---- CLASSIFY
@@ -240,7 +241,7 @@ def run(R):
         rs = [n.value for n in ast.walk(ip.node) if isinstance(n, ast.Return)]
         const = rs[0].value if len(rs) == 1 and isinstance(rs[0], ast.Constant) else None
         has_asynq = cls.find_method("asynq") is not None
-        R.check(const is (not has_asynq), "C09.CLASSIFY", cq, R.site(ip),
+        R.check(const is (not has_asynq), P + ".CLASSIFY", cq, R.site(ip),
                 "%s: is_pure_async_fn() is %s and .asynq is %s" % (cls.name, const, "defined" if has_asynq else "absent"),
                 "%s: is_pure_async_fn() returns %s but .asynq is %s - the classification disagrees with how the object can be called"
                 % (cls.name, const, "defined" if has_asynq else "absent"))
@@ -265,14 +266,14 @@ def run(R):
         f = repo.fn(fq)
         got = hasattr_seq(f)
         ok = sorted(got) == sorted(seq) if unordered else got == seq
-        R.check(ok, "C09.CLASSIFY", fq, R.site(f), "%s consults %s" % (f.name, seq), "%s consults %s instead of %s" % (f.name, got, seq))
+        R.check(ok, P + ".CLASSIFY", fq, R.site(f), "%s consults %s" % (f.name, seq), "%s consults %s instead of %s" % (f.name, got, seq))
     for fq, want in (("decorators.get_async_fn", ["fn.asynq", "getattr(fn, 'async')", "fn", "sync_to_async_fn_wrapper", "None"]),
                      ("decorators.get_async_or_sync_fn", ["fn.asynq", "getattr(fn, 'async')", "fn"])):
         f = repo.fn(fq)
         rs = [q.src(n.value) for n in q.scope_nodes(f.node) if isinstance(n, ast.Return) and n.value is not None]
-        R.check(rs == want, "C09.CLASSIFY", fq + ":returns", R.site(f), "%s returns %s" % (f.name, want), "%s returns %s" % (f.name, rs))
+        R.check(rs == want, P + ".CLASSIFY", fq + ":returns", R.site(f), "%s returns %s" % (f.name, want), "%s returns %s" % (f.name, rs))
     # ---- DEDUP-KEY (function identity, thread per call)
     from .c12 import dedup_key_rule
-    dedup_key_rule(R, "C09.DEDUP-KEY")
-    R.require_min("C09.FORWARD", 45)
-    R.require_min("C09.BINDERS", 12)
+    dedup_key_rule(R, P + ".DEDUP-KEY")
+    R.require_min(P + ".FORWARD", 45)
+    R.require_min(P + ".BINDERS", 12)
